@@ -109,10 +109,12 @@ def parseStrTok (s : String) : Option String :=
 def showResp : Option Response → String
   | none => "-"
   | some r =>
+    -- `v<hex>`: the `jsonrpc` member of the response as written on the wire
+    let ver := "v" ++ hexOfString r.jsonrpc
     match r.result, r.error with
-    | some v, none => "ok/" ++ encJson r.id ++ "/" ++ encJson v
+    | some v, none => "ok/" ++ ver ++ "/" ++ encJson r.id ++ "/" ++ encJson v
     | none, some e =>
-      "err/" ++ toString e.code ++ "/" ++ encJson r.id ++ "/s" ++ hexOfString e.message ++ "/" ++
+      "err/" ++ ver ++ "/" ++ toString e.code ++ "/" ++ encJson r.id ++ "/s" ++ hexOfString e.message ++ "/" ++
         (if e.hasData then "d1" else "d0")
     | _, _ => "MALFORMED"
 
